@@ -1,7 +1,7 @@
 import LZ4V.Proofs.BlockHub
 import LZ4V.Proofs.FastMain
 import LZ4V.Proofs.FastXProof
-import LZ4V.HC.HC5
+import LZ4V.HC.HC6
 /-!
 # C06 — compressed blocks conform to the block format (specification part)
 -/
@@ -64,5 +64,14 @@ theorem hc_sequences_offsets_conform (data : List UInt8) (o : HC.Oracle) (hO : H
   intro e he
   obtain ⟨_, h2, h3, h4, h5, _⟩ := (HC.run_ok data o hO mflimit n (.main start start) (Nat.le_refl _)).2 e he
   exact ⟨h2, h3, h4, h5⟩
+
+/-- **HC, hash-chain levels: the whole block conforms**, for every match finder honouring its contract (byte-verified matches inside the window that end at
+    or before `matchlimit` — checked on every answer of the real finders): a valid parse of the source against the history, match lengths ≥ 4, offsets in
+    1..65535, the last 5 bytes literals, the last match starting at least 12 bytes before the end.  One-shot (`hist = []`), streaming, dictionary. -/
+theorem hc_block_conforms_any_finder (hist block : List UInt8) (o : HC.Oracle) (hO : HC.OracleOK (hist ++ block) o)
+    (hL : HC.OracleLim (hist.length + block.length - 5) o) (fuel : Nat) (blk : List UInt8) (h : HC.compressH o hist block fuel = some blk) :
+    ∃ seqs last, blk = serialize seqs last ∧ ValidParse hist seqs last (hist ++ block) ∧
+      (∀ s ∈ seqs, 4 ≤ s.ml ∧ 1 ≤ s.off ∧ s.off ≤ 65535) ∧ endConditions seqs last = true ∧ covered seqs last = block.length :=
+  HC.compressH_conforms hist block o hO hL fuel blk h
 
 end LZ4V.C06
